@@ -39,6 +39,12 @@ def tag_shapes(rng, quick):
         'soft1': lambda: opt('steps.a.outputs.success', False),
         'oneof': lambda: oneof('kind', {'ok': ref('steps.a.outputs.success'), 'other': ref('steps.a.outputs.alt'), 'bad': ref('steps.a.outputs.error')}),
         'ordis': lambda: ordisabled('steps.a.outputs.success'),
+        # optional references to a whole stage (all of its outputs): the stage either happens or is declared impossible
+        'wait-stage-disabled': lambda: opt('steps.a.disabled', True),
+        'wait-stage-outputs': lambda: opt('steps.a.outputs', True),
+        'wait-stage-closed': lambda: opt('steps.a.closed', True),
+        # option names are free text: dots in them are part of the name, not of a path
+        'oneof-dotted': lambda: oneof('kind', {'v1.0': ref('steps.a.outputs.success'), 'v2.0': ref('steps.a.outputs.alt'), 'v1.0.bad': ref('steps.a.outputs.error')}),
         'oneof-with-wait': lambda: oneof('kind', {'ok': tmap({'v': ref('steps.a.outputs.success.tok'), 'w': opt('steps.b.outputs.success', True)}),
                                                   'bad': tmap({'v': ref('steps.a.outputs.error.reason')})}),
         # a soft-optional inside a one-of option must not make the option (and its consumer) wait for the soft source
@@ -61,7 +67,9 @@ def tag_shapes(rng, quick):
     if quick:
         rng.shuffle(combos)
         deep = [c for c in combos[40:] if c[1].startswith('deep') and c[0] in ('wait1', 'soft1', 'wait2') and c[2] in (('success', 'error'), ('error', 'success'))]
-        combos = combos[:40] + [c for c in combos[40:] if c[0] == 'oneof-with-soft' and c[2] == ('success', 'success')][:2] + deep[:6]
+        dotted = [c for c in combos[40:] if c[0] == 'oneof-dotted' and c[1] in ('top', 'map')]
+        stagey = [c for c in combos[40:] if c[0].startswith('wait-stage') and c[1] == 'top' and c[2][1] == 'success'][:9]
+        combos = combos[:40] + [c for c in combos[40:] if c[0] == 'oneof-with-soft' and c[2] == ('success', 'success')][:2] + deep[:6] + dotted[:4] + stagey
     for tg, pl, (oa, ob) in combos:
         def mk_oc(o):
             if o == 'disabled':
